@@ -3,6 +3,9 @@ import json, os, random
 import lib, profiles, render
 
 
+STRAY = []      # contexts seen in a batch that belong to no case of it (filled by lower_batch, judged after isolation)
+
+
 def lower_batch(cases, prof, urefs, wd, tag):
     """cases: list of (id, items_text, ctx). Runs the real lowering in-process on one module containing all
     of them and iterates (dropping rejected cases) so that validation-phase errors are seen as well.
@@ -30,6 +33,7 @@ def lower_batch(cases, prof, urefs, wd, tag):
         known = set(c[2] for c in live)
         stray = [k for k in by_ctx if k not in known]
         if stray:
+            STRAY.append([(k, by_ctx[k]) for k in stray])
             return None      # an error outside every case's context: attribute by isolation
         nxt = []
         for c in live:
@@ -106,7 +110,22 @@ def run(rep, tier):
                 grp = [x for x in sel if exp[x[0]] == want]
                 for i in range(0, len(grp), B):
                     chunk = grp[i:i + B]
-                    got = lower_batch(chunk, prof, urefs, wd, "b") or lower_isolated(chunk, prof, urefs, wd, "b")
+                    del STRAY[:]
+                    got = lower_batch(chunk, prof, urefs, wd, "b")
+                    if got is None:
+                        got = lower_isolated(chunk, prof, urefs, wd, "b")
+                        # context clause across items: the context of an error is a function of the offending item alone --
+                        # a context that exists only when OTHER items are lowered before it names the wrong type or method
+                        alone = set(cx for x in chunk for cx in got[x[0]].get("ctxs", []))
+                        for grp_ in STRAY:
+                            for cx, msgs in grp_:
+                                if cx not in alone:
+                                    owner = [x for x in chunk if x[2].split("::")[0] == cx.split("::")[0]]
+                                    rep.violation({"what": "error context depends on the items lowered before", "ctx": cx,
+                                                   "profile": sorted(set(GATE_FEATURES) & sup), "urefs": urefs},
+                                                  {"context_in_batch": cx, "messages": msgs[:3], "contexts_in_isolation": sorted(alone)[:40],
+                                                   "offending_item": owner[0][1] if owner else None,
+                                                   "expected_ctx": owner[0][2] if owner else None})
                     sus = [x for x in chunk if got[x[0]]["ok"] != want]
                     ncheck += len(chunk)
                     if not sus:
